@@ -16,7 +16,7 @@ def run(ctx):
                               "c10_pem_walk_total", "c10_pem_walk_sound", "c10_pem_skip_unguarded_refuted", "c10_role_parameter",
                               "c10_claim_access_total", "c10_claim_access_sound", "c10_unguarded_index_refuted", "c10_header_assertion",
                               "c10_upload_refused_or_admissible", "c10_framed_upload_refused_or_admissible", "c10_framed_upload_total", "c10_unguarded_transcoder_refuted"])],
-        harness=("TestVerif_C10", ["kmd/common.go", "kmd/creds.go", "kmd/consts.go", "kmd/c10.go", "kmd/c11.go", "kmd/tokens.go", "kmd/c04.go", "kmd/c04peer.go", "kmd/c10_tokens.go", "kmd/c10_config.go", "kmd/c10_framing.go"]),
+        harness=("TestVerif_C10", ["kmd/common.go", "kmd/creds.go", "kmd/consts.go", "kmd/c10.go", "kmd/c11.go", "kmd/tokens.go", "kmd/c04.go", "kmd/c04peer.go", "kmd/c04carrier.go", "kmd/c11_resume.go", "kmd/c10_tokens.go", "kmd/c10_config.go", "kmd/c10_framing.go"]),
         cases=("CasesC10.v", [("c10_pred_mismatches", "ValidatePublicKeyStrength = model validate on every RSA size 1..4200, curves, Ed25519, others"),
                               ("c10_pipeline_mismatches", "status class of the six issuing paths = model pipeline on the key corpus"),
                               ("c10_file_mismatches", "SSH key files of the authorized_keys grammar (pairs of keys): status class = model pipeline2 on the key the real validator approved", "CasesC10F.idx"),
